@@ -14,6 +14,9 @@ CONSTANTS
  MaxPool = 4
  MaxProv = 1
  MaxSteps = 2
+ DefUrls = {""}
+ DefExtras = {{}}
+ EnvUrls = {""}
  RdKinds = {}
  RdPres = {}
  RdBodies = {}
